@@ -414,6 +414,38 @@ def check_mask(ctx):
                 step = v.k == "bin" and v.extra in ("Add", "AddWithOverflow", "AddUnchecked") and any(x.k == "const" and (x.extra or {}).get("val") == 1 for x in v.a) \
                     or (v.k == "field" and v.a and v.a[0].k == "bin" and v.a[0].extra.startswith("Add") and any(x.k == "const" and (x.extra or {}).get("val") == 1 for x in v.a[0].a))
                 ctx.check(init or step, inst, "PIN", b.path, "the cursor starts at 0 and advances by exactly one extent", b.where(d), {"def": v.show()[:80]})
+    # a record that starts before the next journaled extent but reaches into it would be overwritten by a real replay:
+    # the read-only scan refuses such an image. The probe looks at the cursor's own entry.
+    jo = ctx.fn("recovery::journal_overlaps", inst)
+    if jo is not None:
+        from rules.common import closure_ret_cmp
+        g2 = ctx.sites(jo, R.call("slice::get", "Vec::get"), inst, exact=1)
+        for g in g2:
+            ix = R.arg_expr(jo, jo.nodes[g], 1)
+            ctx.check(ix.k == "arg" and ix.extra[0] == 2, inst, "PIN", jo.path, "the overlap probe reads the entry at the cursor itself (`journal.get(index)`)", jo.where(g), {"index": ix.show()[:60]})
+            rv = R.recv_expr(jo, jo.nodes[g])
+            ctx.check(rv.has_arg(idx=1), inst, "PIN", jo.path, "the probe reads the journal it was given", jo.where(g))
+        ok = False
+        for c in ctx.prog.closures_of(jo):
+            x = closure_ret_cmp(c)
+            if x and x["op"] == "Lt" and "extent_end" in x["rhs_upvars"] and x["lhs_e"].has_arg(idx=2) and \
+                    not any(y.k == "bin" for y in x["lhs_e"].walk()) and not any(y.k == "bin" for y in x["rhs_e"].walk()):
+                ok = True
+        ctx.check(ok, inst, "PIN", jo.path, "overlap iff the journaled extent starts before the record's end (`start < extent_end`, strict)", None)
+    calls = ctx.sites(b, R.call("recovery::journal_overlaps"), inst, exact=1)
+    for c in calls:
+        a0 = R.arg_expr(b, b.nodes[c], 0)
+        a1 = R.arg_expr(b, b.nodes[c], 1)
+        a2 = R.arg_expr(b, b.nodes[c], 2)
+        ctx.check("allocation_journal" in names_of(b, a0) or any(cc.nid in rj for cc in a0.calls()), inst, "PROVENANCE", b.path, "the overlap probe gets the (sorted) allocation journal", b.where(c))
+        curs = {x.extra for g in gets for x in R.arg_expr(b, b.nodes[g], 1).walk() if x.k == "local"}
+        ctx.check(a1.k == "local" and a1.extra in curs, inst, "PROVENANCE", b.path, "and the masking cursor itself (no offset)", b.where(c), {"arg": a1.show()[:60]})
+        ctx.check(a2.has_call("RecordFormat::total_size") or "extent_end" in names_of(b, a2), inst, "PROVENANCE", b.path, "and the end of the record's own extent", b.where(c))
+        R.guard(ctx, inst, b, [c], ro_t, "the probe runs on a read-only open")
+        errs = A.error_nodes(b)
+        for (sw, l) in R.guard_edges_for_call(b, [c], "true"):
+            r, _ = A.reach(b, [t for (t, lab) in b.nodes[sw].succ if lab == l])
+            ctx.check(not any(x in r for x in V.PUB_REC(b)) and any(e in r for e in errs), inst, "FOLLOW", b.path, "an overlapping record makes the read-only open fail (it is never indexed)", b.where(sw))
     # the writable twin: replay happens before the first block is scanned
     rp = ctx.sites(b, R.call("DiskIO::replay_allocation_journal"), inst, exact=1)
     for x in rp:
